@@ -36,6 +36,7 @@ def check(repo: Repo, rep, tier):
     file_identity(repo, rep)
     io_newline(repo, rep)
     io_encoding(repo, rep)
+    source_bom(repo, rep)
     line_model(repo, rep)
     element_parens(repo, rep)
     from .C15 import parse_before_write
@@ -525,12 +526,14 @@ def io_newline(repo: Repo, rep):
                 f,
                 c,
                 "SourceFile.new_code reads the file with universal newlines (read_text) while rewrite() writes the result in binary: a CRLF test file comes back with LF on every line although only a snapshot argument was changed",
-                construct=f"{c.func.attr}({', '.join(norm(a) for a in c.args)})",
+                construct=f"{c.func.attr}:universal-newlines",  # the codec argument is no part of this finding
             )
 
 
-def _utf8(e) -> bool:
-    return isinstance(e, ast.Constant) and isinstance(e.value, str) and e.value.lower().replace("_", "-") in ("utf-8", "utf8")
+def _utf8(e, reading: bool = False) -> bool:
+    # a reader may use utf-8-sig (UTF-8 that drops a leading byte order mark); a writer using it would add a mark to every file
+    ok = ("utf-8", "utf8", "utf-8-sig") if reading else ("utf-8", "utf8")
+    return isinstance(e, ast.Constant) and isinstance(e.value, str) and e.value.lower().replace("_", "-") in ok
 
 
 def io_encoding(repo: Repo, rep):
@@ -553,7 +556,7 @@ def io_encoding(repo: Repo, rep):
                 if enc is None:
                     pos = 0 if name == "read_text" else 1
                     enc = c.args[pos] if len(c.args) > pos else None
-                if enc is not None and _utf8(enc):
+                if enc is not None and _utf8(enc, reading=name == "read_text"):
                     rep.ok("R-IO-ENCODING", f, c, f"{name} with explicit UTF-8")
                 else:
                     rep.violation("R-IO-ENCODING", f, c, f"`{short(c, 60)}` in {f.qualname} uses the locale's default encoding: the file is read as UTF-8 elsewhere, so under a non-UTF-8 locale non-ASCII text is written in another encoding or the write fails after the file was truncated", construct=f"{f.qualname}:{name}")
@@ -563,7 +566,7 @@ def io_encoding(repo: Repo, rep):
                 m = mode.value if isinstance(mode, ast.Constant) else "r"
                 if "b" in str(m):
                     rep.ok("R-IO-ENCODING", f, c, "binary open")
-                elif _utf8(kw.get("encoding")) if kw.get("encoding") is not None else False:
+                elif _utf8(kw.get("encoding"), reading="r" in str(m) or str(m) == "") if kw.get("encoding") is not None else False:
                     rep.ok("R-IO-ENCODING", f, c, "text open with explicit UTF-8")
                 else:
                     rep.violation("R-IO-ENCODING", f, c, f"`{short(c, 60)}` in {f.qualname} opens the test file in text mode without encoding='utf-8'", construct=f"{f.qualname}:open")
@@ -575,6 +578,43 @@ def io_encoding(repo: Repo, rep):
                 else:
                     rep.violation("R-IO-ENCODING", f, c, f"`{short(c, 60)}` converts the file content with a codec other than UTF-8", construct=f"{f.qualname}:{name}")
     rep.floor("R-IO-ENCODING", "file accesses / conversions in _rewrite_code.py", n, 3)
+
+
+def source_bom(repo: Repo, rep):
+    rep.rule(
+        "R-SOURCE-BOM",
+        "a test module may start with a UTF-8 byte order mark (Python accepts it; editors on Windows write it): text of a test file that reaches "
+        "ast.parse(), the formatter or the line/offset table is decoded with `utf-8-sig`, because a str that still carries U+FEFF is a SyntaxError for "
+        "ast.parse / black and shifts every column of the first line; and the writer puts the mark back when the file had one.  Otherwise every session "
+        "that touches such a file ends with an internal error and nothing is written",
+    )
+    n = 0
+    for f in repo.pkg_funcs():
+        if f.module.rel not in ("_rewrite_code.py", "_find_external.py"):
+            continue
+        for c in [x for x in body_nodes(f.node) if isinstance(x, ast.Call) and isinstance(x.func, ast.Attribute) and x.func.attr == "read_text"]:
+            kw = {k.arg: k.value for k in c.keywords if k.arg}
+            enc = kw.get("encoding") or (c.args[0] if c.args else None)
+            n += 1
+            if isinstance(enc, ast.Constant) and str(enc.value).lower().replace("_", "-") == "utf-8-sig":
+                rep.ok("R-SOURCE-BOM", f, c, "decoded with utf-8-sig")
+            else:
+                rep.violation(
+                    "R-SOURCE-BOM",
+                    f,
+                    c,
+                    f"`{short(c, 50)}` in {f.qualname} keeps a leading byte order mark in the text: ast.parse() / black reject U+FEFF, so a session over a test file saved as 'UTF-8 with BOM' ends with a SyntaxError "
+                    "(internal error, nothing written) even when no snapshot changes",
+                    construct=f"{f.qualname}:read_text",
+                )
+    rep.floor("R-SOURCE-BOM", "text reads of test files", n, 3)
+    w = repo.func("_rewrite_code.py::SourceFile.rewrite")
+    marks = [x for x in body_nodes(w.node) if (isinstance(x, ast.Attribute) and x.attr == "BOM_UTF8") or (isinstance(x, ast.Constant) and x.value in (b"\xef\xbb\xbf", "\ufeff"))]
+    writes = [x for x in body_nodes(w.node) if isinstance(x, ast.Call) and isinstance(x.func, ast.Attribute) and x.func.attr in ("write", "write_bytes")]
+    if writes and any(any(m is y for y in ast.walk(wr)) for wr in writes for m in marks) or (writes and len(writes) > 1 and marks):
+        rep.ok("R-SOURCE-BOM", w, writes[0], "the writer restores the byte order mark of a file that had one")
+    else:
+        rep.violation("R-SOURCE-BOM", w, w.node, "SourceFile.rewrite never writes a byte order mark: a file saved as 'UTF-8 with BOM' silently loses it when a snapshot in it is rewritten", construct="rewrite:no-bom")
 
 
 POSITION_MODULES = ("_rewrite_code.py", "_change.py", "_find_external.py", "_source_file.py")
@@ -591,14 +631,21 @@ def line_model(repo: Repo, rep):
         "function is not a position use",
     )
     n = 0
-    for f in repo.pkg_funcs():
-        if f.module.rel not in POSITION_MODULES:
-            continue
+    # fields of a class that hold a value derived from splitlines() (a self-made line table filled in __init__ and read by another
+    # method): class name -> field names; two rounds, the second sees the fields the first found
+    tainted_fields: dict = {}
+    work = [f for f in repo.pkg_funcs() if f.module.rel in POSITION_MODULES]
+    for f in work + work:
+        own_fields = tainted_fields.get(f.cls.name, set()) if f.cls is not None else set()
+        selfname = f.params[0] if f.cls is not None and f.params else None
         srcs = [c for c in body_nodes(f.node) if isinstance(c, ast.Call) and isinstance(c.func, ast.Attribute) and c.func.attr == "splitlines"]
-        if not srcs:
+        fsrcs = [x for x in body_nodes(f.node) if isinstance(x, ast.Attribute) and isinstance(x.ctx, ast.Load) and isinstance(x.value, ast.Name) and x.value.id == selfname and x.attr in own_fields]
+        if not srcs and not fsrcs:
+            continue
+        if (f.key, "done") in tainted_fields:
             continue
         tainted_names: set = set()
-        tainted_nodes = {id(c) for c in srcs}
+        tainted_nodes = {id(c) for c in srcs} | {id(c) for c in fsrcs}
 
         def tainted(e) -> bool:
             if id(e) in tainted_nodes:
@@ -652,6 +699,15 @@ def line_model(repo: Repo, rep):
                     tainted_names |= {x.id for x in ast.walk(st.target) if isinstance(x, ast.Name)}
                 if isinstance(st, ast.Call) and isinstance(st.func, ast.Attribute) and st.func.attr in ("append", "extend", "insert", "add") and isinstance(st.func.value, ast.Name) and any(tainted(a) for a in st.args):
                     tainted_names.add(st.func.value.id)
+                # the same into a field of the object
+                if f.cls is not None:
+                    tgt = None
+                    if isinstance(st, ast.Assign) and tainted(st.value):
+                        tgt = [t for t in st.targets if isinstance(t, ast.Attribute) and isinstance(t.value, ast.Name) and t.value.id == selfname]
+                    elif isinstance(st, ast.Call) and isinstance(st.func, ast.Attribute) and st.func.attr in ("append", "extend", "insert", "add") and isinstance(st.func.value, ast.Attribute) and isinstance(st.func.value.value, ast.Name) and st.func.value.value.id == selfname and any(tainted(a) for a in st.args):
+                        tgt = [st.func.value]
+                    for t in tgt or []:
+                        tainted_fields.setdefault(f.cls.name, set()).add(t.attr)
             if len(tainted_names) == before:
                 break
         sinks = []
@@ -665,6 +721,18 @@ def line_model(repo: Repo, rep):
                 last = fn.split(".")[-1]
                 if (last in ("SourcePosition", "SourceRange", "insert", "replace", "line_to_offset", "offset_to_line") or "offset" in last.lower()) and (any(tainted(a) for a in st.args) or any(tainted(k.value) for k in st.keywords)):
                     sinks.append((st, f"is handed to {fn}()"))
+        if srcs or sinks:
+            tainted_fields[(f.key, "done")] = True
+        if fsrcs and not srcs and sinks:
+            st, how = sinks[0]
+            rep.violation(
+                "R-LINE-MODEL",
+                f,
+                fsrcs[0],
+                f"{f.qualname}: `{norm(fsrcs[0])}` holds a table computed from str.splitlines() and {how} (line {getattr(st, 'lineno', 0)}): a self-made line table has more line boundaries than the tokenizer "
+                "that produced the (line, column) positions - an edit lands on the wrong line when the file contains \\f, \\x1c-\\x1e, \\x85, U+2028 or U+2029",
+                construct=f"{f.qualname}:splitlines-field",
+            )
         for c in srcs:
             n += 1
             if sinks:
